@@ -50,7 +50,8 @@ fn chunking(rng: &mut Rng, msg: &[u8]) -> (Vec<Vec<u8>>, &'static str) {
 }
 
 fn msg_len(rng: &mut Rng, k: u64) -> usize {
-    if k <= 130 {
+    // every length 0..=4096 appears as the sequence counter passes it
+    if k <= 4096 {
         return k as usize;
     }
     (match rng.below(5) {
@@ -228,6 +229,38 @@ fn verifier_flips(out: &mut Out, rng: &mut Rng, idx: u64) {
     verify_case(out, &pk, &chunks, &other.sign(&msg), "other-key-signature");
 }
 
+/// small-order points (and two non-canonical encodings) as public key and as R, S = 0: triples
+/// that plain RFC 8032 verification may accept for any message. The incremental verifier must
+/// agree with the direct one here as well.
+fn weak_key_vectors(out: &mut Out, rng: &mut Rng) {
+    const POINTS: [&str; 10] = [
+        "0100000000000000000000000000000000000000000000000000000000000000",
+        "ecffffffffffffffffffffffffffffffffffffffffffffffffffffffffffff7f",
+        "0000000000000000000000000000000000000000000000000000000000000000",
+        "0000000000000000000000000000000000000000000000000000000000000080",
+        "26e8958fc2b227b045c3f489f2ef98f0d5dfac05d3c63339b13802886d53fc05",
+        "26e8958fc2b227b045c3f489f2ef98f0d5dfac05d3c63339b13802886d53fc85",
+        "c7176a703d4dd84fba3c0b760d10670f2a2053fa2c39ccc64ec7fd7792ac037a",
+        "c7176a703d4dd84fba3c0b760d10670f2a2053fa2c39ccc64ec7fd7792ac03fa",
+        "eeffffffffffffffffffffffffffffffffffffffffffffffffffffffffffff7f",
+        "edffffffffffffffffffffffffffffffffffffffffffffffffffffffffffff7f",
+    ];
+    for pk in POINTS {
+        for r in POINTS {
+            let pkb = unhex(pk).unwrap();
+            let mut sig = unhex(r).unwrap();
+            sig.extend_from_slice(&[0u8; 32]);
+            for k in 0..4 {
+                let msg = rng.rbytes(0, 40);
+                let chunks = if k % 2 == 0 { vec![msg.clone()] } else { chunking(rng, &msg).0 };
+                verify_case(out, &pkb, &chunks, &sig, "small-order-key-or-R");
+                out.obs("weak_key_vectors", 1);
+            }
+        }
+    }
+    out.case(0x5eed_0bad, true);
+}
+
 pub fn run(ctx: &Ctx, out: &mut Out) {
     let mut rng = ctx.rng("C13");
     if let Some(r) = &ctx.replay {
@@ -265,6 +298,9 @@ pub fn run(ctx: &Ctx, out: &mut Out) {
             break;
         }
     }
+    if ctx.shard < 4 {
+        weak_key_vectors(out, &mut rng);
+    }
     let nflip = ctx.share(400, 20_000);
     for i in 0..nflip {
         verifier_flips(out, &mut rng, i * ctx.nshards + ctx.shard);
@@ -277,6 +313,7 @@ pub fn run(ctx: &Ctx, out: &mut Out) {
     out.floor("signatures_after_earlier_message", 500);
     out.floor("verifications", 20_000);
     out.floor("oracle_accepts", 40);
+    out.floor("weak_key_vectors", 400);
     out.floor("own_signatures_verified", 2_000);
     out.floor("oracle_rejects", 10_000);
 }
